@@ -407,6 +407,7 @@ pub fn run_check(meta: &CheckMeta, tier: Tier) -> i32 {
     let mut seen_sig = BTreeSet::new();
     let mut known_hit = BTreeSet::new();
     let mut unreplayable = 0;
+    let mut unconfirmed: Vec<String> = Vec::new();
     for v in &m.violations {
         let sig = v["signature"].as_str().unwrap_or("").to_string();
         if !seen_sig.insert(sig.clone()) {
@@ -434,12 +435,15 @@ pub fn run_check(meta: &CheckMeta, tier: Tier) -> i32 {
         let reproduced = out.status.code() == Some(1)
             && so.contains(&format!("class={}", v["class"].as_str().unwrap_or("?")));
         if !reproduced {
-            println!(
-                "HARNESS-ERROR violation did not replay: {} ({})\n{}",
+            // Not reported as a violation.  Alone it is a harness error (my scenario does not
+            // capture what the failure depends on); next to a confirmed violation it is most
+            // likely another symptom of the same defect whose trigger (e.g. the earlier
+            // history of the process) lies outside this scenario.
+            unconfirmed.push(format!(
+                "observed but not reproduced from its replay file: {} ({})",
                 path.display(),
-                v["summary"].as_str().unwrap_or(""),
-                so
-            );
+                v["summary"].as_str().unwrap_or("")
+            ));
             unreplayable += 1;
             continue;
         }
@@ -539,11 +543,14 @@ pub fn run_check(meta: &CheckMeta, tier: Tier) -> i32 {
         new_violations,
         known_hit.len()
     );
-    if !m.harness_errors.is_empty() || unreplayable > 0 || probe_fail {
-        return 2;
+    for u in &unconfirmed {
+        println!("{} {}", if new_violations > 0 { "UNCONFIRMED-SYMPTOM" } else { "HARNESS-ERROR" }, u);
     }
     if new_violations > 0 {
         return 1;
+    }
+    if !m.harness_errors.is_empty() || unreplayable > 0 || probe_fail {
+        return 2;
     }
     0
 }
